@@ -39,6 +39,8 @@ UNK_TRUE_SP = ["`a`", "!!!!1", "1 ? 1 : 1", "`a${1}`"]
 # (before E, after E): evaluates E, value is the constant
 SEQ_TRUE_SP = [("(", ", true)"), ("", " || true"), ("(", ", 1)"), ("", " || 1")]
 SEQ_FALSE_SP = [("(", ", false)"), ("", " && false"), ("(", ", 0)")]
+# a call whose value decides: cast_to_bool = Unknown, visited like the call itself
+OPAQUE_CALL_SP = [("", ""), ("", ""), ("true && ", ""), ("", " && 1"), ("!", ""), ("0 || ", "")]
 LIT_SP = ["1", "0", "null", "2.5"]
 # heads of a for-in/of with a default value FN: (text before FN, text after FN up to the `in`/`of` keyword)
 HEAD_SP = [("const [k = ", "]"), ("const {k = ", "}"), ("var [k = ", "]"), ("let [, k = ", "]"), ("[k = ", "]"), ("const {a: [k = ", "]}")]
@@ -95,7 +97,9 @@ class Printer:
             # dependency corpus only: the value is NaN (falsy) - for the semantics this is CFalse
             self.t(1); self.w(c[1])
         else:
-            self.t(2); self.expr(c[1])
+            # opaque: an identifier, or a call possibly under operators that keep the value unknown to swc
+            pre, post = self.pick(OPAQUE_CALL_SP) if c[1][0] == 'call' else ("", "")
+            self.t(2); self.w(pre); self.expr(c[1]); self.w(post)
 
     def stmts(self, l):
         self.t(len(l))
